@@ -10,7 +10,7 @@ RAWTEXT = frozenset(["style", "script", "xmp", "iframe", "noembed", "noframes", 
 # html5lib's void element table (constants.voidElements), which decides where a trailing solidus is written
 VOID = frozenset(["area", "base", "br", "col", "command", "embed", "event-source", "hr", "img", "input", "link", "meta",
                   "param", "source", "track", "wbr"])
-BOUND = "at most 1 (quick; then the tag name is one of a/input/style) / 2 (thorough) attributes per tag; boolean-attribute minimisation only in the thorough tier; output encoding None; Entity tokens not covered"
+BOUND = "at most 1 attribute per tag; a tag that carries an attribute is named a/input/style (quick) or a/input/style/option (thorough); boolean-attribute minimisation only in the thorough tier; output encoding None; Entity tokens not covered"
 
 
 def serializer(S):
@@ -41,7 +41,8 @@ def ser_token(S, L=None):
     if t == "Doctype":
         d.entries["publicId"] = [S.one_of(None, lambda: S.str("publicId")), True]
         d.entries["systemId"] = [S.one_of(None, lambda: S.str("systemId")), True]
-    most = 2 if os.environ.get("VERIF_TIER_EFFECTIVE") == "thorough" else 1
+    thorough = os.environ.get("VERIF_TIER_EFFECTIVE") == "thorough"
+    most = 1            # two attributes per tag did not finish within the per-contract time limit (15 min x 16 cores)
     if t in ("Characters", "SpaceCharacters", "Comment"):
         d.entries["data"] = [S.str("token.text"), True]
     elif t in ("StartTag", "EmptyTag"):
@@ -52,10 +53,13 @@ def ser_token(S, L=None):
             d.entries["namespace"] = [S.str("token.namespace"), True]
         else:
             d.entries["namespace"] = [S.one_of(None, lambda: S.str("token.namespace")), True]
-        if k >= 1 and most == 1:
+        if k >= 1 and not thorough:
             # quick tier: tags that carry attributes have one of three representative names (ordinary, void,
-            # raw text); attribute-free tags and the thorough tier keep the name arbitrary
+            # raw text); attribute-free tags keep the name arbitrary
             d.entries["name"] = [S.one_of("a", "input", "style"), True]
+        elif k >= 1:
+            # thorough tier: additionally a name with its own boolean-attribute table (the full set of names cost 10 CPU-hours)
+            d.entries["name"] = [S.one_of("a", "input", "style", "option"), True]
         pairs = [((S.one_of(None, lambda: S.str("ns%d" % j)), S.str("local%d" % j)), S.str("value%d" % j)) for j in range(k)]
         d.entries["data"] = [S.symdict(pairs), True]
     return d
@@ -152,7 +156,7 @@ def step_attribute_values(yielded, pre, self, token):
     piece = yielded[1:len(yielded) - 1]
     if len(piece) < 2 or piece[0] != " " or piece[1] != name:
         return False
-    if len(piece) == 2:
+    if len(piece) == 2 or (len(piece) == 3 and (piece[2] == "/" or piece[2] == " /")):
         return self.minimize_boolean_attributes          # value omitted only under boolean minimisation
     if piece[2] != "=":
         return False
